@@ -405,6 +405,7 @@ func (l *log) delete(offsets map[int64]struct{}) ([]Message, int64, error) {
 	}
 
 	wasWriter := false
+	rewriteLimit := int64(-1)
 	l.writerMu.Lock()
 	if l.writer.reader == rdr {
 		wasWriter = true
@@ -412,6 +413,9 @@ func (l *log) delete(offsets map[int64]struct{}) ([]Message, int64, error) {
 			l.writerMu.Unlock()
 			return nil, 0, err
 		}
+		// the segment is rewritten while publishes continue, anything after its current
+		// size is not part of this delete and might be a message that is still being written
+		rewriteLimit = l.writer.messages.Size()
 	}
 	l.writerMu.Unlock()
 
@@ -438,7 +442,7 @@ func (l *log) delete(offsets map[int64]struct{}) ([]Message, int64, error) {
 			mversion, iversion = message.V2, index.V2
 		}
 	}
-	rs, err := rdr.segment.Rewrite(offsets, l.params, mversion, iversion)
+	rs, err := rdr.segment.RewriteLimit(rewriteLimit, offsets, l.params, mversion, iversion)
 	if err != nil {
 		return nil, 0, err
 	}
